@@ -217,3 +217,27 @@ Proof.
     rewrite skipn_all2 by (rewrite repeat_length; lia). simpl.
     rewrite firstn_app, Nat.sub_diag, firstn_all. simpl. now rewrite app_nil_r.
 Qed.
+
+(* ---------------------------------------------------------------- reslicing *)
+
+Lemma skipn_add {A} (l : list A) : forall a b, skipn b (skipn a l) = skipn (a + b) l.
+Proof.
+  induction l as [|x l IH]; intros a b.
+  - now rewrite !skipn_nil.
+  - destruct a as [|a]; simpl; auto.
+Qed.
+
+(* s[lo:hi] with hi <= len s reads the corresponding part of s and shares its array: its
+   capacity reaches to the end of s's capacity *)
+Lemma reslice_spec h s lo hi :
+  wf h s -> lo <= hi -> hi <= len s ->
+  wf h (reslice s lo hi) /\ read h (reslice s lo hi) = firstn (hi - lo) (skipn lo (read h s)).
+Proof.
+  intros [Hl Hw] H1 H2. split.
+  - split; simpl; [lia|]. destruct Hw as [Hc|[Ha Hb]]; [left; lia|].
+    right. split; auto. unfold arr_of in *. simpl. lia.
+  - unfold read, arr_of. simpl.
+    rewrite skipn_firstn_comm, firstn_firstn, skipn_add.
+    f_equal. lia.
+Qed.
+
